@@ -157,7 +157,9 @@ func c16Ops(w world) []setOp {
 						return nil, nil
 					}
 				}
-				return integrate.ChangeSpatialIdsZoom(spatialOf(ids), up(h))
+				in, chk := guardedList(spatialOf(ids))
+				defer noteGuard(chk)
+				return integrate.ChangeSpatialIdsZoom(in, up(h))
 			}},
 			setOp{"integrate.MergeSpatialIds(root)", true, func(ids []string) ([]string, error) {
 				for _, s := range ids {
@@ -165,7 +167,9 @@ func c16Ops(w world) []setOp {
 						return nil, nil
 					}
 				}
-				return integrate.MergeSpatialIds(spatialOf(ids), h)
+				in, chk := guardedList(spatialOf(ids))
+				defer noteGuard(chk)
+				return integrate.MergeSpatialIds(in, h)
 			}},
 			setOp{"detector.CheckSpatialIdsArrayOverlap(list,other)", false, func(ids []string) ([]string, error) {
 				half := int64(1) << uint(h)
@@ -176,8 +180,12 @@ func c16Ops(w world) []setOp {
 					}
 				}
 				_ = half
-				b, err := detector.CheckSpatialIdsArrayOverlap(spatialOf(ids), spatialOf(other))
-				b2, err2 := detector.CheckSpatialIdsArrayOverlap(spatialOf(other), spatialOf(ids))
+				in, chk := guardedList(spatialOf(ids))
+				oth, chk2 := guardedList(spatialOf(other))
+				defer noteGuard(chk)
+				defer noteGuard(chk2)
+				b, err := detector.CheckSpatialIdsArrayOverlap(in, oth)
+				b2, err2 := detector.CheckSpatialIdsArrayOverlap(oth, in)
 				if err == nil {
 					err = err2
 				}
@@ -282,7 +290,7 @@ func init() {
 			}
 			return []engine.Phase{
 				{Name: "list-operations", ShardDepth: 3, Bounds: engine.Bounds{EnvDev: dev, InputDev: -1},
-					Rule: "full product world x operation (15 set-valued list operations) x base list x variant (all permutations, each entry doubled) [x hash seed], and for each all map-iteration executions within the deviation bound: result set = result set of the base list under default order; no duplicates where documented; argument slice byte-identical afterwards; non-trivial = distinct (operation, variant) executions that met at least one map choice point",
+					Rule: "full product world x operation (15 set-valued list operations) x base list x variant (all permutations, each entry doubled) [x hash seed], and for each all map-iteration executions within the deviation bound: result set = result set of the base list under default order; no duplicates where documented; the base call repeated after a call that fails part-way (the same list plus a malformed ID) returns the same set; argument slice and the spare capacity behind it (sentinels) byte-identical afterwards; non-trivial = distinct (operation, variant) executions that met at least one map choice point",
 					Body: func(c *engine.Ctx) {
 						w := use[c.In("world", len(use))]
 						ops := c16Ops(w)
@@ -301,8 +309,8 @@ func init() {
 							c.Skip("operation-not-applicable-to-list")
 						}
 						want := canonStrings(refRaw)
-						in := append([]string(nil), arg...)
-						before := strings.Join(in, "|")
+						in, inChk := guardedList(arg)
+						argMutation = ""
 						c.EnvMaps(true)
 						got, err := op.run(in)
 						c.EnvMaps(false)
@@ -329,8 +337,27 @@ func init() {
 								c.Violation("C16:"+op.name+":duplicate-in-result", d)
 							}
 						}
-						if strings.Join(in, "|") != before {
-							c.Violation("C16:"+op.name+":input-slice-modified", d)
+						// a call that fails part-way (the same list, then a malformed ID) leaves nothing behind: the same
+						// valid call afterwards returns the same set (only where the operation takes ID strings as they are)
+						if eqStrs(arg, base) {
+							failed := false
+							func() {
+								defer func() { recover() }() // wrappers that parse the IDs themselves panic on the malformed one: not applicable
+								_, e := op.run(append(append([]string(nil), base...), "1/2/x/4/5"))
+								failed = e != nil
+							}()
+							if failed {
+								c.Count("failing_call_then_valid_call")
+								again, e2 := op.run(append([]string(nil), base...))
+								if (e2 != nil) != (refErr != nil) || canonStrings(again) != want {
+									c.Violation("C16:"+op.name+":result-changes-after-a-failed-call", map[string]any{"call": call, "after": trunc2(canonStrings(again), 300), "want": trunc2(want, 300)})
+								}
+							}
+						}
+						if m := inChk(); m != "" {
+							c.Violation("C16:"+op.name+":input-slice-modified["+m+"]", d)
+						} else if argMutation != "" {
+							c.Violation("C16:"+op.name+":input-slice-modified["+argMutation+"]", d)
 						}
 					}},
 				{Name: "line-and-corridor", ShardDepth: 2, Bounds: engine.Bounds{EnvDev: dev, InputDev: -1},
